@@ -1,4 +1,5 @@
 """C10 - a wire delays each packet by its drawn delay, keeps order, loses only by rate (Wire, Cable)."""
+from vlib.util import guarded_leg
 import random, collections, json, math
 from onl.sim import Environment
 from onl.netdev import Wire, Cable
@@ -1158,6 +1159,7 @@ def fanout_stats(c, runs, handed, keep):
 
 
 # ---- BEGIN wirek leg: the Wire as a process on the kernel MODEL (lean/OnlVerif/Net/WireOnK.lean, driver mode `wirek`) ----
+@guarded_leg(None)
 def run_wirek(ctx, cov=None, dis=None, orc=None):
     """Extra leg for Props/C10K.lean: the K program of the Wire, run at Float by the compiled driver, against the real Wire
     with a real source process on the real kernel (public API only), compared line for line; plus the delivery recurrence
